@@ -92,7 +92,8 @@ def _slice_bounds(sl, n):
     bounds are realised by forking (bounded by n)."""
     def conc(v):
         if isinstance(v, SInt):
-            return cur().realise_int(v.e, cap=max(64, n + 2), what='slice bound')
+            return cur().realise_int(v.e, cap=max(64, n + 2),
+                                     what='slice bound', lo=v.lo, hi=v.hi)
         if isinstance(v, SBool):
             return int(bool(v))
         return v
@@ -685,7 +686,8 @@ def realise_seq(s, cap=64):
         if type(x) is int:
             items.append(x)
         else:
-            items.append(p.realise_int(x.e, cap=cap, what='sequence element'))
+            items.append(p.realise_int(x.e, cap=cap, what='sequence element',
+                                       lo=x.lo, hi=x.hi))
     if s.kind == STR:
         return ''.join(map(chr, items))
     if s.kind == BYTES:
